@@ -19,6 +19,8 @@
 //      connect and do the same,
 //  (5) CPU time of the process in a 150 ms idle window < 30 % of one core.
 #include "vfh.h"
+#include "core/nng_impl.h"
+#include <dlfcn.h>
 
 #include <arpa/inet.h>
 #include <errno.h>
@@ -883,27 +885,50 @@ cpu_seconds(void)
 	return (double) ru.ru_utime.tv_sec + (double) ru.ru_stime.tv_sec + ((double) ru.ru_utime.tv_usec + (double) ru.ru_stime.tv_usec) / 1e6;
 }
 
-// (5) no spin: CPU time used by the whole process while everything is idle
+// (5) no spin: CPU time used by the whole process while everything is idle.
+// While the window is open the expire-loop events are sampled so that a
+// violation can name the timer that keeps firing.
+static _Atomic(uintptr_t) spin_last_cb;
+static _Atomic long        spin_expired;
+static void
+spin_ev(int ev, const void *obj, uintptr_t a, uintptr_t b)
+{
+	(void) a;
+	(void) b;
+	if (ev == NNI_VE_AIO_EXPIRE) {
+		const nni_aio *aio = obj;
+		atomic_fetch_add(&spin_expired, 1);
+#ifdef NNG_VERIF
+		atomic_store(&spin_last_cb, (uintptr_t) aio->a_v_cb);
+#else
+		(void) aio;
+#endif
+	}
+}
+
 static void
 spin_window(victim *v, const char *when)
 {
+	long e0 = vf_ev_count(NNI_VE_AIO_EXPIRE), t0e = vf_ev_count(NNI_VE_TASK_ENQ), p0 = vf_ev_count(NNI_VE_POLL_BEGIN);
+	atomic_store(&spin_expired, 0);
+	vf_ev_hook(spin_ev);
 	double   c0 = cpu_seconds();
 	uint64_t t0 = vf_now_ns();
 	vf_msleep(150);
 	double c1   = cpu_seconds();
 	double wall = (double) (vf_now_ns() - t0) / 1e9;
+	vf_ev_hook(NULL);
 	vf_stat("spin_windows", 1);
 	if (c1 - c0 > 0.30 * 0.150 && c1 - c0 > 0.30 * wall) {
-		char key[160];
-		snprintf(key, sizeof(key), "C11/spin/%s/%s/%s", tnames[v->tran], v->vp->name, when);
-		vf_violation(key, "process used %.0f ms of CPU in a %.0f ms idle window %s (mutation %s)", (c1 - c0) * 1e3, wall * 1e3, when, v->cur_mut);
-		if (getenv("C11_SPIN_DUMP") != NULL) {
-			char cmd[256];
-			for (int i = 0; i < 5; i++) {
-				snprintf(cmd, sizeof(cmd), "/verif/tools/stacks.sh %d >&2; echo ---- >&2", (int) getpid());
-				if (system(cmd) != 0) break;
-			}
+		char    key[160], who[128] = "?";
+		Dl_info di;
+		uintptr_t cb = atomic_load(&spin_last_cb);
+		if (cb != 0 && dladdr((void *) cb, &di) != 0) {
+			snprintf(who, sizeof(who), "%s+0x%lx", di.dli_sname ? di.dli_sname : "exe", (unsigned long) (cb - (uintptr_t) (di.dli_sname ? di.dli_saddr : di.dli_fbase)));
 		}
+		snprintf(key, sizeof(key), "C11/spin/%s/%s/%s", tnames[v->tran], v->vp->name, when);
+		vf_violation(key, "process used %.0f ms of CPU in a %.0f ms idle window %s (mutation %s); meanwhile %ld timers expired (last callback %s), %ld tasks were dispatched, the pollers woke %ld times",
+		    (c1 - c0) * 1e3, wall * 1e3, when, v->cur_mut, vf_ev_count(NNI_VE_AIO_EXPIRE) - e0, who, vf_ev_count(NNI_VE_TASK_ENQ) - t0e, vf_ev_count(NNI_VE_POLL_BEGIN) - p0);
 	}
 	pump(v);
 }
